@@ -65,6 +65,8 @@ func (c *Config) load(configPath string, isGlobal bool) error {
 	var ident string
 	buf := bytes.NewReader(b)
 	scanner := bufio.NewScanner(buf)
+	// a value may be longer than the default line limit of the scanner
+	scanner.Buffer(make([]byte, 0, 64*1024), len(b)+1)
 	for scanner.Scan() {
 		text := scanner.Text()
 		if identRegexp.MatchString(text) {
